@@ -1,6 +1,6 @@
 (* SolverProofs.v — proofs about Solver.v (storage cadence, refinement of run() to the Euler/Heun iterates,
    time axis, cutoff, numpy rounding). *)
-From Coq Require Import List ZArith QArith Qcanon Qround Bool Arith Lia ZifyBool.
+From Coq Require Import List ZArith QArith Qcanon Qround Bool Arith Lia ZifyBool Lqa.
 From PV Require Import History HistoryProofs Solver.
 Import ListNotations.
 Local Open Scope nat_scope.
@@ -385,3 +385,66 @@ Lemma linspace_axis_differs :
   map (fun q => Qeq_bool (this (fst q)) (this (snd q))) (combine (times_linspace 3 (mkq 1 1)) (times 3 (mkq 3 8))) = [true; false; false] /\
   rows_fit (mkq 1 1) (mkq 1 8) (mkq 3 8) = true.
 Proof. split; vm_compute; reflexivity. Qed.
+
+(* ------------------------------------------------------------------------------------------------ *)
+(* numpy round / Python round on the quotients T/dt, T/dts, dts/dt: nearest integer, ties to even *)
+Section Rounding.
+Local Open Scope Qc_scope.
+Lemma thisP x y : (this (x + y) == this x + this y)%Q.
+Proof. unfold Qcplus, Q2Qc. cbn [this]. apply Qred_correct. Qed.
+Lemma thisO x : (this (- x) == - this x)%Q.
+Proof. unfold Qcopp, Q2Qc. cbn [this]. apply Qred_correct. Qed.
+Lemma thisM x y : (this (x - y) == this x - this y)%Q.
+Proof. unfold Qcminus. rewrite thisP, thisO. reflexivity. Qed.
+Lemma thisZ z : (this (ZtoQc z) == inject_Z z)%Q.
+Proof. apply Qred_correct. Qed.
+Lemma thisH : (this half == 1 # 2)%Q.
+Proof. apply Qred_correct. Qed.
+Ltac toQ := unfold Qcle, Qclt in *; rewrite ?thisP, ?thisM, ?thisZ, ?thisH in *; change (inject_Z 1) with 1%Q in *.
+
+Theorem round_half_even_close q :
+  ZtoQc (round_half_even q) - half <= q /\ q <= ZtoQc (round_half_even q) + half.
+Proof.
+  pose proof (Qfloor_le (this q)) as H1. pose proof (Qlt_floor (this q)) as H2.
+  rewrite inject_Z_plus in H2. change (inject_Z 1) with 1%Q in *. unfold round_half_even.
+  set (fl := Qfloor (this q)) in *.
+  destruct (q - ZtoQc fl ?= half) eqn:E.
+  - apply Qceq_alt in E. apply (f_equal this) in E.
+    assert (E' : (this q - inject_Z fl == 1 # 2)%Q) by (rewrite <- thisH, <- E, thisM, thisZ; reflexivity).
+    destruct (Z.even fl); toQ; try rewrite inject_Z_plus; change (inject_Z 1) with 1%Q in *; split; lra.
+  - apply Qclt_alt in E. toQ. split; lra.
+  - apply Qcgt_alt in E. toQ. rewrite inject_Z_plus. change (inject_Z 1) with 1%Q in *. split; lra.
+Qed.
+
+Theorem round_half_even_tie z :
+  round_half_even (ZtoQc z + half) = if Z.even z then z else (z + 1)%Z.
+Proof.
+  unfold round_half_even.
+  assert (Hf : Qfloor (this (ZtoQc z + half)) = z).
+  { assert (Hq : (this (ZtoQc z + half) == inject_Z z + (1 # 2))%Q) by (rewrite thisP, thisZ, thisH; reflexivity).
+    rewrite (Qfloor_comp _ _ Hq).
+    pose proof (Qfloor_le (inject_Z z + (1 # 2))) as H1. pose proof (Qlt_floor (inject_Z z + (1 # 2))) as H2.
+    set (fl := Qfloor (inject_Z z + (1 # 2))) in *.
+    assert (inject_Z fl <= inject_Z z + (1#2))%Q by exact H1.
+    rewrite inject_Z_plus in H2. change (inject_Z 1) with 1%Q in *.
+    assert (fl <= z)%Z. { apply Z.lt_succ_r. rewrite Zlt_Qlt. unfold Z.succ. rewrite inject_Z_plus. change (inject_Z 1) with 1%Q in *. lra. }
+    assert (z <= fl)%Z. { apply Z.lt_succ_r. rewrite Zlt_Qlt. unfold Z.succ. rewrite inject_Z_plus. change (inject_Z 1) with 1%Q in *. lra. }
+    lia. }
+  rewrite Hf.
+  replace (ZtoQc z + half - ZtoQc z) with half by ring.
+  assert ((half ?= half) = Eq) as -> by (apply Qceq_alt; reflexivity). reflexivity.
+Qed.
+
+Theorem round_half_even_nearest q z :
+  ZtoQc z - half < q -> q < ZtoQc z + half -> round_half_even q = z.
+Proof.
+  intros Ha Hb. destruct (round_half_even_close q) as [H1 H2].
+  set (r := round_half_even q) in *. toQ.
+  assert (r < z + 1)%Z. { rewrite Zlt_Qlt. rewrite inject_Z_plus. change (inject_Z 1) with 1%Q in *. lra. }
+  assert (z < r + 1)%Z. { rewrite Zlt_Qlt. rewrite inject_Z_plus. change (inject_Z 1) with 1%Q in *. lra. }
+  lia.
+Qed.
+
+Theorem round_half_even_int z : round_half_even (ZtoQc z) = z.
+Proof. apply round_half_even_nearest; toQ; lra. Qed.
+End Rounding.
